@@ -212,7 +212,10 @@ pub fn velocity(m: &mut Obj, v: &AirborneVelocity) {
 
 fn me(m: &mut Obj, me: &ME) {
     match me {
-        ME::NoPosition(_) => put(m, "mek", 0),
+        ME::NoPosition(r) => {
+            put(m, "mek", 0);
+            m.insert("raw".into(), Value::Array(r.iter().map(|x| Value::from(i64::from(*x))).collect()));
+        }
         ME::AircraftIdentification(i) => {
             put(m, "mek", 1);
             put(m, "tcl", tcl_code(&i.tc));
@@ -241,9 +244,18 @@ fn me(m: &mut Obj, me: &ME) {
             put(m, "mek", 5);
             position(m, a);
         }
-        ME::Reserved0(_) => put(m, "mek", 6),
-        ME::SurfaceSystemStatus(_) => put(m, "mek", 7),
-        ME::Reserved1(_) => put(m, "mek", 8),
+        ME::Reserved0(r) => {
+            put(m, "mek", 6);
+            m.insert("raw".into(), Value::Array(r.iter().map(|x| Value::from(i64::from(*x))).collect()));
+        }
+        ME::SurfaceSystemStatus(r) => {
+            put(m, "mek", 7);
+            m.insert("raw".into(), Value::Array(r.iter().map(|x| Value::from(i64::from(*x))).collect()));
+        }
+        ME::Reserved1(r) => {
+            put(m, "mek", 8);
+            m.insert("raw".into(), Value::Array(r.iter().map(|x| Value::from(i64::from(*x))).collect()));
+        }
         ME::AircraftStatus(s) => {
             put(m, "mek", 9);
             put(
@@ -279,7 +291,10 @@ fn me(m: &mut Obj, me: &ME) {
             put(m, "tcas", i64::from(t.tcas));
             put(m, "lnav", i64::from(t.lnav));
         }
-        ME::AircraftOperationalCoordination(_) => put(m, "mek", 11),
+        ME::AircraftOperationalCoordination(r) => {
+            put(m, "mek", 11);
+            m.insert("raw".into(), Value::Array(r.iter().map(|x| Value::from(i64::from(*x))).collect()));
+        }
         ME::AircraftOperationStatus(OperationStatus::Airborne(a)) => {
             put(m, "mek", 12);
             opmode(m, &a.operational_mode);
@@ -318,7 +333,11 @@ fn me(m: &mut Obj, me: &ME) {
             put(m, "hrd", i64::from(s.horizontal_reference_direction));
             put(m, "silsup", i64::from(s.sil_supplement));
         }
-        ME::AircraftOperationStatus(OperationStatus::Reserved(..)) => put(m, "mek", 14),
+        ME::AircraftOperationStatus(OperationStatus::Reserved(a, r)) => {
+            put(m, "mek", 14);
+            put(m, "rsv5", i64::from(*a));
+            m.insert("raw".into(), Value::Array(r.iter().map(|x| Value::from(i64::from(*x))).collect()));
+        }
     }
 }
 
@@ -335,7 +354,10 @@ pub fn scaled(x: f64, k: f64) -> i64 {
 
 fn bds(m: &mut Obj, b: &BDS) {
     match b {
-        BDS::Empty(_) => put(m, "bdsk", 0),
+        BDS::Empty(r) => {
+            put(m, "bdsk", 0);
+            m.insert("raw".into(), Value::Array(r.iter().map(|x| Value::from(i64::from(*x))).collect()));
+        }
         BDS::DataLinkCapability(d) => {
             put(m, "bdsk", 1);
             put(m, "cont", i64::from(d.continuation_flag));
@@ -357,7 +379,11 @@ fn bds(m: &mut Obj, b: &BDS) {
             put(m, "bdsk", 2);
             m.insert("cs".into(), chars(s));
         }
-        BDS::Unknown(_) => put(m, "bdsk", 3),
+        BDS::Unknown((id, r)) => {
+            put(m, "bdsk", 3);
+            put(m, "bdsid", i64::from(*id));
+            m.insert("raw".into(), Value::Array(r.iter().map(|x| Value::from(i64::from(*x))).collect()));
+        }
     }
 }
 
